@@ -70,12 +70,12 @@ Definition dcheck (c : dcase) : bool :=
       fm_eqb (if isleft then house_left X M beta nu else house_right X M beta nu) out
   | DGivens a b c s => let r := givens X a b in feqb (fst r) c && feqb (snd r) s
   | DGivApply sub M c s i k out => fm_eqb (giv_variant sub M c s i k) out
-  | DGS R0 A Q R => let r := gram_schmidt_in X R0 A in fm_eqb (fst r) Q && fm_eqb (snd r) R
+  | DGS R0 A Q R => let r := gram_schmidt_in2 X R0 A in fm_eqb (fst r) Q && fm_eqb (snd r) R
   | DHess sz cu A H U => let r := hessenberg X sz cu A in fm_eqb (fst r) H && ofm_eqb (snd r) U
   | DBidiag cu cv A B U V =>
-      let r := bidiag X cu cv A in
+      let r := bidiag2 X cu cv A in
       fm_eqb (fst (fst r)) B && ofm_eqb (snd (fst r)) U && ofm_eqb (snd r) V
-  | DTridiag cu A T U => let r := tridiag X cu A in fm_eqb (fst r) T && ofm_eqb (snd r) U
+  | DTridiag cu A T U => let r := tridiag2 X cu A in fm_eqb (fst r) T && ofm_eqb (snd r) U
   end.
 
 Definition mism (cs : list dcase) : list nat := mismatches dcheck cs.
